@@ -358,6 +358,13 @@ class CallSite:
         self.path = path
 
 
+def _disjuncts(e):
+    e = cx.strip_casts(e)
+    if e[0] == "bin" and e[1] == "||":
+        return _disjuncts(e[2]) + _disjuncts(e[3])
+    return [e]
+
+
 class Simulator:
     def __init__(self, cfile, fname):
         self.c = cfile
@@ -365,9 +372,19 @@ class Simulator:
         self.fn = cfile.funcs[fname]
         self.body = cf.body_of(self.fn)
         self._cond_cache = {}
-        self.rel_vars = set()
-        self.flag_vars, self.sign_vars, self.ptr_vars = self._discover()
         self.parse_errors = []
+        self.rel_vars = set()
+        # variables whose address goes to PyArg_Parse*: their declared initialiser is only a default
+        self.parse_targets = set()
+        for n in cf.walk(self.fn):
+            if n.get("k") == "CallExpr" and (cf.callee_name(n) or "").startswith("PyArg_Parse"):
+                for a in n.get("c", [])[1:]:
+                    a = cf.strip(a)
+                    if a.get("k") == "UnaryOperator" and a.get("op") == "&" and a.get("c"):
+                        t = cf.strip(a["c"][0])
+                        if t.get("k") == "DeclRefExpr":
+                            self.parse_targets.add(t.get("ref"))
+        self.flag_vars, self.sign_vars, self.ptr_vars = self._discover()
 
     # ---- text helpers -----------------------------------------------------------------
     def cond_of(self, stmt):
@@ -546,6 +563,14 @@ class Simulator:
                 return self._stmt(els, facts, in_threads, path + [("F", st)]) if els else None
             # unknown
             if is_error_exit(then):
+                if self.case.rels and ce is not None:
+                    # disjuncts decided false by the case's order relation between two integers
+                    # (`n > ldA || ...`) still hold as facts after the guard
+                    for d in _disjuncts(ce):
+                        d = cx.strip_casts(d)
+                        if d[0] == "bin" and d[1] in ("<", ">", "<=", ">=") and cx.strip_casts(d[2])[0] == "id" \
+                                and cx.strip_casts(d[3])[0] == "id" and peval(d, self.case) is False:
+                            facts.extend(facts_of_rejected(d))
                 if v is not None:
                     new = facts_of_rejected(_resolve(v, self.case))
                     facts.extend(new)
@@ -623,13 +648,23 @@ class Simulator:
                 if vd.get("k") == "VarDecl" and vd.get("c") and vd.get("t") in ("int", "char", "_Bool") and vd.get("lo") is not None:
                     txt = self.c.stmt_text_until_semicolon(vd["lo"])
                     txt = txt.split(",")[0] if txt.count("(") == txt.split(",")[0].count("(") else txt
-                    if "=" in txt:
+                    if "=" in txt and vd["n"] not in self.parse_targets:
                         try:
                             v = peval(cx.parse(txt.split("=", 1)[1]), self.case)
                         except cx.ParseError:
                             v = None
                         if v is True or v is False:
                             self.case.signs[vd["n"]] = 1 if v else 0
+                        else:
+                            try:
+                                rhs = _resolve(cx.parse(txt.split("=", 1)[1]), self.case)
+                                pz = cx.to_poly(rhs)
+                            except cx.ParseError:
+                                pz = None
+                            if pz is not None and vd["n"] not in pz.symbols():
+                                f = Fact("==", ("id", vd["n"]), rhs, "%s == %s" % (vd["n"], cx.unparse(rhs)))
+                                f.assign_var, f.assign_poly = vd["n"], pz
+                                facts.append(f)
             return None
         if k in ("BreakStmt", "ContinueStmt"):
             return None
@@ -717,6 +752,10 @@ class Simulator:
                             f.D = f.D.subs(sub)
                             f.text = f.text + "  [after %s *= %d]" % (tgt, c)
                     continue
+            if tgt and n.get("k") == "BinaryOperator" and n.get("op") == "=" and len(n.get("c", [])) > 1 \
+                    and cf.strip(n["c"][1]).get("k") == "DeclRefExpr" and cf.strip(n["c"][1]).get("ref") in self.case.flags:
+                self.case.flags[tgt] = self.case.flags[cf.strip(n["c"][1])["ref"]]     # `trans_ = trans;`
+                continue
             if tgt and tgt in self.case.flags and n.get("k") == "BinaryOperator" and n.get("op") == "=" \
                     and cf.strip(n["c"][1]).get("k") == "CharacterLiteral":
                 try:
@@ -742,6 +781,7 @@ class Simulator:
                 if n is st and n.get("k") == "BinaryOperator" and n.get("op") == "=":
                     e = self.stmt_expr(st)
                     if e and e[0] == "assign" and e[1] == "=" and e[2] == ("id", tgt) and tgt not in cx.idents(e[3]):
+                        e = ("assign", "=", e[2], _resolve(e[3], self.case))
                         p = cx.to_poly(e[3])
                         if p is not None:
                             f = Fact("==", e[2], e[3], cx.unparse(e))
@@ -750,6 +790,12 @@ class Simulator:
 
     def _call(self, call, facts, in_threads, path):
         nm = cf.callee_name(call)
+        if nm is None and call.get("c"):
+            f0 = cf.strip(call["c"][0])
+            if f0.get("k") == "ArraySubscriptExpr" and f0.get("c"):
+                b0 = cf.strip(f0["c"][0])
+                if b0.get("k") == "DeclRefExpr" and ("tbl:" + (b0.get("ref") or "")) in self.externs:
+                    nm = "tbl:" + b0["ref"]
         if nm is None:
             return
         if nm in self.externs:
